@@ -694,6 +694,15 @@ TFI_UNITS = [
                 ]),
 ]
 
+# every unit of the collection carries the representation invariant (lower-case keys, strictly ascending) that C03 (ascending keys in
+# the string), C04 (every PURL handed out is normalised -- whatever mutators ran on the builder's public `parts` before build())
+# and C19 (derived equality / order on the stored sequence) rest on
+for _u in KEY_UNITS + CMP_UNITS + MAP_UNITS + MAP_UNITS2 + MAP_UNITS3 + MAP_UNITS4 + TYPED_UNITS + ITER_UNITS + MORE_UNITS + CAP_UNITS + TFI_UNITS:
+    if _u.get('properties') is not None and _u['id'].startswith(('U-qmap.', 'U-qkey.', 'U-qcmp.')):
+        for _p in ('C03', 'C04', 'C19'):
+            if _p not in _u['properties']:
+                _u['properties'].append(_p)
+
 GROUP = dict(
     name='qual',
     theory=['base.rs'],
